@@ -37,7 +37,8 @@ func libEffects(f *types.Func) ([]string, bool) {
 		return []string{"ctxdone"}, true
 	case full == "github.com/filecoin-project/go-leb128.FromUInt64", full == "(github.com/ipfs/go-cid.Cid).Bytes":
 		return []string{"bytes"}, true
-	case full == "(github.com/ipfs/go-cid.Cid).ByteLen", full == "(github.com/ipfs/go-cid.Cid).Equals", full == "(github.com/ipfs/go-cid.Cid).Defined":
+	case full == "(github.com/ipfs/go-cid.Cid).ByteLen", full == "(github.com/ipfs/go-cid.Cid).Equals", full == "(github.com/ipfs/go-cid.Cid).Defined",
+		full == "(github.com/ipfs/go-cid.Cid).String", full == "(github.com/ipfs/go-cid.Cid).KeyString":
 		return nil, true
 	case full == "github.com/ipfs/go-cid.CidFromReader":
 		return []string{"consumed"}, true
@@ -320,6 +321,13 @@ func (u *Unit) libModel(st *State, e *ast.CallExpr, callee *types.Func, ca callA
 		if _, ok := a.T.Underlying().(*types.Slice); ok {
 			return Term{S: fmt.Sprintf("(mk_slice %s %s %s %s)", sRef(a.S), sOff(a.S), sLen(a.S), sLen(a.S)), T: sig.Results().At(0).Type()}, true
 		}
+	case "slices.Sort":
+		// ascending order of an integer slice; same trusted statement as sort.Slice(s, func(i, j) { return s[i] < s[j] })
+		if len(e.Args) == 1 {
+			if r, ok := u.sortCore(st, e, "", token.LSS, nil); ok {
+				return r, true
+			}
+		}
 	case "sort.Slice":
 		if r, ok := u.sortSliceModel(st, e, ca); ok {
 			return r, true
@@ -454,6 +462,20 @@ func (u *Unit) libModel(st *State, e *ast.CallExpr, callee *types.Func, ca callA
 		st.assume(u.uvarintAtFacts(blk, c.idxConst(0), x.S))
 		r := u.allocBlock(st, u.byteT(), blk)
 		return Term{S: fmt.Sprintf("(mk_slice %s %s %s %s)", r, c.idxConst(0), n, n), T: sig.Results().At(0).Type()}, true
+	case "(github.com/ipfs/go-cid.Cid).String", "(github.com/ipfs/go-cid.Cid).KeyString":
+		// the text / binary string form of a CID is an INJECTIVE pure function of the CID value (multibase encoding of its
+		// bytes; KeyString is the bytes themselves): cid.str(c) / cid.keystr(c), with the inverse cid.ofstr
+		fn := "cid.str"
+		if callee.Name() == "KeyString" {
+			fn = "cid.keystr"
+		}
+		cs := c.sortOf(ca.recv.T)
+		c.declareFun(fn, "("+cs+") Str")
+		c.declareFun(fn+".inv", "(Str) "+cs)
+		c.declareRaw(fn+".injective", fmt.Sprintf("(assert (forall ((x %s)) (! (= (%s.inv (%s x)) x) :pattern ((%s x)))))", cs, fn, fn, fn))
+		r := Term{S: fmt.Sprintf("(%s %s)", fn, ca.recv.S), T: sig.Results().At(0).Type()}
+		st.assume(c.idxLe(c.idxConst(0), "(gstr.len "+r.S+")"))
+		return r, true
 	case "(github.com/ipfs/go-cid.Cid).Equals":
 		// go-cid: func (c Cid) Equals(o Cid) bool { return c == o }
 		return Term{S: eq(ca.recv.S, ca.args[0].S), T: boolT}, true
@@ -786,7 +808,6 @@ func (u *Unit) readUvarintModel(st *State, e *ast.CallExpr, ca callArgs, sig *ty
 // sortSliceModel: sort.Slice(s, func(i, j int) bool { return s[i] OP s[j] }) (or s[i].F OP s[j].F) with OP in {<, >} on integers.
 // Trusted: the result is ordered accordingly and has exactly the elements of the input (as a set, both directions).
 func (u *Unit) sortSliceModel(st *State, e *ast.CallExpr, ca callArgs) (Term, bool) {
-	c := u.c
 	if len(e.Args) != 2 {
 		return Term{}, false
 	}
@@ -834,6 +855,13 @@ func (u *Unit) sortSliceModel(st *State, e *ast.CallExpr, ca callArgs) (Term, bo
 	if !ok1 || !ok2 || s1 != s2 || f1 != f2 || s1 != u.exprText(e.Args[0]) {
 		return Term{}, false
 	}
+	return u.sortCore(st, e, f1, cmp.Op, fl)
+}
+
+// sortCore: the slice e.Args[0] is sorted by the integer key `element` (f1 == "") or `element.f1`, ascending for op LSS,
+// descending for GTR (shared by the sort.Slice and slices.Sort models).
+func (u *Unit) sortCore(st *State, e *ast.CallExpr, f1 string, op token.Token, fl *ast.FuncLit) (Term, bool) {
+	c := u.c
 	s := u.eval(st, e.Args[0]) // the argument is passed as `any`: take the slice itself
 	if s.T == nil {
 		return Term{}, false
@@ -885,17 +913,17 @@ func (u *Unit) sortSliceModel(st *State, e *ast.CallExpr, ca callArgs) (Term, bo
 	kb, _, _ := keyOf(at(newBlk, b))
 	var le string
 	if c.bv {
-		op := "bvule"
+		bop := "bvule"
 		if signed {
-			op = "bvsle"
+			bop = "bvsle"
 		}
-		le = fmt.Sprintf("(%s %s %s)", op, ka, kb)
-		if cmp.Op == token.GTR {
-			le = fmt.Sprintf("(%s %s %s)", op, kb, ka)
+		le = fmt.Sprintf("(%s %s %s)", bop, ka, kb)
+		if op == token.GTR {
+			le = fmt.Sprintf("(%s %s %s)", bop, kb, ka)
 		}
 	} else {
 		le = fmt.Sprintf("(<= %s %s)", ka, kb)
-		if cmp.Op == token.GTR {
+		if op == token.GTR {
 			le = fmt.Sprintf("(>= %s %s)", ka, kb)
 		}
 	}
@@ -923,7 +951,9 @@ func (u *Unit) sortSliceModel(st *State, e *ast.CallExpr, ca callArgs) (Term, bo
 		st.assume(implies(fmt.Sprintf("(forall ((%s %s) (%s %s)) %s)", a, c.idxSort(), b, c.idxSort(), implies(rng, not(eq(oka, okb)))),
 			fmt.Sprintf("(forall ((%s %s) (%s %s)) %s)", a, c.idxSort(), b, c.idxSort(), implies(rng, not(eq(ka, kb))))))
 	}
-	u.eng.noteFuncLit(u, fl)
+	if fl != nil {
+		u.eng.noteFuncLit(u, fl)
+	}
 	return Term{Tuple: []Term{}}, true
 }
 
